@@ -31,136 +31,212 @@ Require Import Ctpg.Proofs.TermRecAll.
 Require Import Ctpg.Proofs.GenTermChecks.
 Require Import Ctpg.Proofs.CapFormula.
 Require Import Ctpg.Proofs.CapFormulaCex.
+Require Import Ctpg.Model.Containers.
+Require Import Ctpg.Proofs.ContainersVec.
+Require Import Ctpg.Proofs.ContainersBits.
+Require Import Ctpg.Proofs.ContainersSort.
 From Coq Require Import Permutation.
 
 (* every unchecked array/stack access of the driver (table row and column, rule_infos, erase/back/pop on the stacks, the goto after a reduction, the lexeme extent) is in range: the run never ends in Crash, for any input, options, stack capacity, functors, also through error recovery *)
 Theorem C06_no_out_of_range_access :
   forall (V C : Type) (g : grammar) (sts : list items) (tbl : LRGen.table) (opts : options) (buf : list nat) (cap : option nat) (lexer : bool -> spoint -> list nat -> list lex_event * option (nat * nat)) (term_f : nat -> nat -> nat -> spoint -> V) (err_f : spoint -> V) (rule_f : nat -> C -> list V -> C * V), safe_ok g sts tbl = true -> lexer_ok_on g buf lexer -> forall (fuel : nat) (c : C) (cr : crash), fst (fst (run V C g tbl opts buf cap lexer term_f err_f rule_f fuel c)) <> Crash cr.
-Proof. exact no_crash_safe_ok. Qed.
+Proof. exact @no_crash_safe_ok. Qed.
 Print Assumptions C06_no_out_of_range_access.
 
 (* the table / rule_infos indices alone are in range for any dimensionally well-formed table, conflicts included *)
 Theorem C06_table_indices_any_table :
   forall (V C : Type) (g : grammar) (tbl : LRGen.table) (n : nat) (opts : options) (buf : list nat) (cap : option nat) (lexer : bool -> spoint -> list nat -> list lex_event * option (nat * nat)) (term_f : nat -> nat -> nat -> spoint -> V) (err_f : spoint -> V) (rule_f : nat -> C -> list V -> C * V), table_wfb g tbl n = true -> lexer_ok_on g buf lexer -> forall (fuel : nat) (c : C), let r := fst (fst (run V C g tbl opts buf cap lexer term_f err_f rule_f fuel c)) in r <> Crash CrTableRow /\ r <> Crash CrTableCol /\ r <> Crash CrRuleInfo.
-Proof. exact no_crash_table_wf. Qed.
+Proof. exact @no_crash_table_wf. Qed.
 Print Assumptions C06_table_indices_any_table.
 
 (* the cursor and the lexeme end never leave the buffer *)
 Theorem C06_positions_stay_inside_the_buffer :
   forall (V C : Type) (g : grammar) (tbl : LRGen.table) (opts : options) (buf : list nat) (cap : option nat) (lexer : bool -> spoint -> list nat -> list lex_event * option (nat * nat)) (term_f : nat -> nat -> nat -> spoint -> V) (err_f : spoint -> V) (rule_f : nat -> C -> list V -> C * V), (forall (v : bool) (p : spoint) (rest : list nat) (t len : nat), snd (lexer v p rest) = Some (t, len) -> len <= length rest) -> eof_err_not_shifted g tbl \/ o_skip_ws opts = false -> forall (fuel : nat) (c : C), let '(r, s, out) := run V C g tbl opts buf cap lexer term_f err_f rule_f fuel c in ps_sp s = true_pos buf (ps_it s) /\ ps_it s <= length buf /\ ps_end s <= length buf /\ (r = OutOfFuel -> ps_it s <= ps_end s \/ ps_term s = Some (eof_idx g)) /\ Forall (event_pos_ok buf) out.
-Proof. exact run_pos. Qed.
+Proof. exact @run_pos. Qed.
 Print Assumptions C06_positions_stay_inside_the_buffer.
 
 (* the automaton built for ANY pattern is never indexed out of range by the matcher on ANY string (although the builder is semantically wrong on some patterns) *)
 Theorem C06_matcher_never_out_of_range_on_any_pattern :
   forall r : regex, exists sm : dfa, build_expr r = Some sm /\ (forall s : list nat, dfa_match_oob sm s = false).
-Proof. exact built_dfa_no_oob_total. Qed.
+Proof. exact @built_dfa_no_oob_total. Qed.
 Print Assumptions C06_matcher_never_out_of_range_on_any_pattern.
 
 (* the matcher reads a prefix of the input, left to right, each element at most once *)
 Theorem C06_matcher_reads_each_byte_once :
   forall (sm : dfa) (p : spoint) (s : list nat), exists k : nat, k <= length s /\ chars_of (fst (dfa_match sm true p s)) = firstn k s.
-Proof. exact dfa_match_reads_prefix. Qed.
+Proof. exact @dfa_match_reads_prefix. Qed.
 Print Assumptions C06_matcher_reads_each_byte_once.
 
 (* the recognised length never exceeds the input *)
 Theorem C06_matcher_length_within_input :
   forall (sm : dfa) (v : bool) (p : spoint) (s : list nat) (t len : nat), snd (dfa_match sm v p s) = Some (t, len) -> len <= length s.
-Proof. exact dfa_match_len_le. Qed.
+Proof. exact @dfa_match_len_le. Qed.
 Print Assumptions C06_matcher_length_within_input.
 
 (* an accepted parse takes exactly length(input) + nodes(tree) + 1 iterations *)
 Theorem C06_terminates_on_accepted_inputs :
   forall (g : grammar) (sts : list items) (tbl : LRGen.table) (w : list nat) (t : tree), validate_sound g sts tbl = true -> no_error_symbol g tbl = true -> LRSound.tokens_ok g w -> accepts g tbl w t -> tsize t = length w + nodes t /\ (forall fuel : nat, (tsize t < fuel -> tree_run g tbl w fuel = Accept t) /\ (fuel <= tsize t -> tree_run g tbl w fuel = OutOfFuel)).
-Proof. exact accepted_fuel_exact. Qed.
+Proof. exact @accepted_fuel_exact. Qed.
 Print Assumptions C06_terminates_on_accepted_inputs.
 
 (* TERMINATION ON EVERY INPUT, accepted or not, WITH OR WITHOUT ERROR RULES: for any functors, options, buffer and lexer (non-empty in-range lexemes), a table that passes term_checks (validated LR(1) automaton with justified lookaheads of a productive grammar - discharged on the real tables): some fuel suffices and more fuel changes nothing *)
 Theorem C06_terminates_on_every_input :
   forall (V C : Type) (g : grammar) (sts : list items) (tbl : LRGen.table) (opts : options) (buf : list nat) (lexer : bool -> spoint -> list nat -> list lex_event * option (nat * nat)) (term_f : nat -> nat -> nat -> spoint -> V) (err_f : spoint -> V) (rule_f : nat -> C -> list V -> C * V) (c0 : C), term_checks g sts tbl = true -> lexer_ok_for g lexer -> lexer_in_range lexer -> exists fuel : nat, forall fuel' : nat, fuel <= fuel' -> fst (fst (run V C g tbl opts buf None lexer term_f err_f rule_f fuel' c0)) = fst (fst (run V C g tbl opts buf None lexer term_f err_f rule_f fuel c0)) /\ fst (fst (run V C g tbl opts buf None lexer term_f err_f rule_f fuel c0)) <> OutOfFuel.
-Proof. exact generic_run_halts_recovery_checked. Qed.
+Proof. exact @generic_run_halts_recovery_checked. Qed.
 Print Assumptions C06_terminates_on_every_input.
 
 (* the reason with error rules: after the error symbol has been shifted, the first term that is not discarded is shifted after finitely many reductions, with no further error in between *)
 Theorem C06_every_recovery_cycle_consumes_a_term :
   forall (g : grammar) (sts : list items) (tbl : LRGen.table) (cur : nat) (ss : list nat) (trs : list tree) (a : nat) (v : list nat) (cur1 : nat) (ss1 : list nat) (trs1 : list tree) (e : entry), validate g sts tbl = true -> lookahead_generated g sts -> ReportViable.states_nonempty sts -> reduce_lookahead g sts tbl -> ReportLang.productive g -> MInv g sts (cur :: ss) trs -> mshift g tbl (cur :: ss, trs, err_idx g :: a :: v) = Some (cur1 :: ss1, trs1, a :: v) -> a < eof_idx g -> cell tbl cur1 (nterm_count g + a) = inl e -> e_kind e <> KError -> exists (n : nat) (c1 c2 : LRMachine.cfg), rsteps g tbl n (cur1 :: ss1, trs1, a :: v) c1 /\ mshift g tbl c1 = Some c2 /\ snd c2 = v.
-Proof. exact recovery_cycle_progress. Qed.
+Proof. exact @recovery_cycle_progress. Qed.
 Print Assumptions C06_every_recovery_cycle_consumes_a_term.
 
 (* the version for tables without error rules *)
 Theorem C06_terminates_without_error_rules :
   forall (V C : Type) (g : grammar) (sts : list items) (tbl : LRGen.table) (opts : options) (buf : list nat) (lexer : bool -> spoint -> list nat -> list lex_event * option (nat * nat)) (term_f : nat -> nat -> nat -> spoint -> V) (err_f : spoint -> V) (rule_f : nat -> C -> list V -> C * V) (c0 : C), term_checks g sts tbl = true -> no_error_symbol g tbl = true -> lexer_ok_for g lexer -> lexer_in_range lexer -> exists fuel : nat, fst (fst (run V C g tbl opts buf None lexer term_f err_f rule_f fuel c0)) <> OutOfFuel.
-Proof. exact generic_run_halts_checked. Qed.
+Proof. exact @generic_run_halts_checked. Qed.
 Print Assumptions C06_terminates_without_error_rules.
 
 (* THE GENERATOR, for all grammars: a conflict-free table it builds passes term_checks exactly when the grammar is productive - so termination holds for every parser generated from a productive conflict-free grammar *)
 Theorem C06_generated_tables_pass_the_termination_checks :
   forall (g : grammar) (lim : limits) (sts : list lrstate) (tbl : LRGen.table), grammar_wf g = true -> GenWf.grammar_wf_extra g = true -> gen_with g lim = inl (sts, tbl) -> GenCorrect.conflict_free g (length sts) tbl = true -> GenCorrect.accept_clean g sts = true -> term_checks g (map st_all sts) tbl = productiveb g.
-Proof. exact gen_term_checks_productive. Qed.
+Proof. exact @gen_term_checks_productive. Qed.
 Print Assumptions C06_generated_tables_pass_the_termination_checks.
 
 (* the LR machine itself (shift/reduce/accept/error cell) halts on every token string, error rules or not: no endless chain of reductions *)
 Theorem C06_machine_halts_also_with_error_rules :
   forall (g : grammar) (sts : list items) (tbl : LRGen.table) (w : list nat), term_checks g sts tbl = true -> LRSound.tokens_ok g w -> exists (n : nat) (c : LRMachine.cfg), LRMachine.msteps g tbl n ([0], [], w) c /\ match LRMachine.mstep g tbl c with | LRMachine.Next _ => False | _ => True end.
-Proof. exact machine_halts_checked. Qed.
+Proof. exact @machine_halts_checked. Qed.
 Print Assumptions C06_machine_halts_also_with_error_rules.
 
 (* with error rules: the run ends or reaches recovery mode (what happens from there is covered by the two progress lemmas below, not by a termination theorem) *)
 Theorem C06_parse_up_to_the_first_error_terminates :
   forall (g : grammar) (sts : list items) (tbl : LRGen.table) (w : list nat), validate g sts tbl = true -> lookahead_generated g sts -> ReportViable.states_nonempty sts -> reduce_lookahead g sts tbl -> ReportLang.productive g -> LRSound.tokens_ok g w -> exists (fuel : nat) (r : result tree) (s : pstate tree unit) (out : list event), run tree unit g tbl tree_opts w None id_lexer LRMachine.tf (LRMachine.ef g) LRMachine.rlf fuel tt = (r, s, out) /\ (r <> OutOfFuel \/ r = OutOfFuel /\ ps_rec s = true).
-Proof. exact first_error_or_end. Qed.
+Proof. exact @first_error_or_end. Qed.
 Print Assumptions C06_parse_up_to_the_first_error_terminates.
 
 (* the reason: every reduction is made on a lookahead that continues some sentence *)
 Theorem C06_every_action_is_viable :
   forall (g : grammar) (sts : list items) (tbl : LRGen.table) (w : list nat) (cur : nat) (ss : list nat) (trs : list tree) (rest : list nat) (e : entry), validate g sts tbl = true -> lookahead_generatedb g sts = true -> reduce_lookaheadb g sts tbl = true -> productiveb g = true -> LRSound.tokens_ok g w -> ReportLang.reach g tbl w (cur :: ss, trs, rest) -> cell tbl cur (nterm_count g + LRMachine.look g rest) = inl e -> e_kind e = KReduce -> let u := flat_map yield (rev trs) in (rest <> [] -> ReportLang.sentence_prefix g (u ++ [LRMachine.look g rest])) /\ (rest = [] -> exists t : tree, derives_tree g t u).
-Proof. exact action_viable_checked. Qed.
+Proof. exact @action_viable_checked. Qed.
 Print Assumptions C06_every_action_is_viable.
 
 (* REFUTED without the lookahead check: a table that passes validate and loops forever *)
 Theorem C06_halting_needs_justified_lookaheads_refuted :
   validate ReportCex.g2 ReportCex.sts2 ReportCex.tbl2 = true /\ states_nonempty_b ReportCex.sts2 = true /\ reduce_lookaheadb ReportCex.g2 ReportCex.sts2 ReportCex.tbl2 = true /\ productiveb ReportCex.g2 = true /\ no_error_symbol ReportCex.g2 ReportCex.tbl2 = true /\ LRSound.tokens_ok ReportCex.g2 [1] /\ lookahead_generatedb ReportCex.g2 ReportCex.sts2 = false /\ (forall fuel : nat, tree_run ReportCex.g2 ReportCex.tbl2 [1] fuel = OutOfFuel).
-Proof. exact halting_refuted_without_lookahead_generated. Qed.
+Proof. exact @halting_refuted_without_lookahead_generated. Qed.
 Print Assumptions C06_halting_needs_justified_lookaheads_refuted.
 
 (* hence parse is a decision procedure: accepted with a derivation tree iff derivable, rejected iff not *)
 Theorem C06_decides_the_language :
   forall (g : grammar) (sts : list items) (tbl : LRGen.table) (w : list nat), term_checks g sts tbl = true -> no_error_symbol g tbl = true -> LRSound.tokens_ok g w -> exists fuel : nat, forall fuel' : nat, fuel <= fuel' -> (derives g w -> exists t : tree, tree_run g tbl w fuel' = Accept t /\ derives_tree g t w) /\ (~ derives g w -> tree_run g tbl w fuel' = Reject).
-Proof. exact decides_language_checked. Qed.
+Proof. exact @decides_language_checked. Qed.
 Print Assumptions C06_decides_the_language.
 
 (* the stacks used with cstring_buffer: without empty rules and error-symbol shifts the stack never holds more than input bytes + 1 entries, which the library's capacity covers *)
 Theorem C06_fixed_stacks_never_overflow_without_empty_rules_and_recovery :
   forall (V C : Type) (g : grammar) (tbl : LRGen.table) (opts : options) (buf : list nat) (lexer : bool -> spoint -> list nat -> list lex_event * option (nat * nat)) (term_f : nat -> nat -> nat -> spoint -> V) (err_f : spoint -> V) (rule_f : nat -> C -> list V -> C * V), empty_rules g = 0 -> eof_err_not_shifted g tbl -> no_shifterrb tbl = true -> lexer_in_range lexer -> forall (fuel : nat) (c : C), SafeCap.never_above V C g tbl opts buf lexer term_f err_f rule_f (length buf + 1) fuel c.
-Proof. exact height_le_bytes_without_empty_rules. Qed.
+Proof. exact @height_le_bytes_without_empty_rules. Qed.
 Print Assumptions C06_fixed_stacks_never_overflow_without_empty_rules_and_recovery.
 
 (* REFUTED in general (known findings D8 / D16): the capacity can be exceeded; since repair 5ed974d the real code then throws instead of writing out of bounds *)
 Theorem C06_fixed_stack_capacity_refuted :
-  analyze d8_raw = Some d8_g /\ (exists sts : list lrstate, gen d8_g = inl (sts, d8_tbl)) /\ validate d8_g (sts_of d8_g) d8_tbl = true /\ LRSound.tokens_ok d8_g [0] /\ cstring_cap d8_g (length [0]) = 4 /\ res (tree_run_cap d8_g d8_tbl None [0] 20) = Accept d8_tree /\ tree_run d8_g d8_tbl [0] 20 = Accept d8_tree /\ res (tree_run_cap d8_g d8_tbl (Some (cstring_cap d8_g (length [0]))) [0] 20) = Throw.
-Proof. exact cstring_capacity_formula_refuted. Qed.
+  analyze d8_raw = Some d8_g /\ (exists sts : list lrstate, gen d8_g = inl (sts, d8_tbl)) /\ validate d8_g (sts_of d8_g) d8_tbl = true /\ LRSound.tokens_ok d8_g [0] /\ cstring_cap d8_g (length [0]) = 4 /\ CapFormulaCex.res (tree_run_cap d8_g d8_tbl None [0] 20) = Accept d8_tree /\ tree_run d8_g d8_tbl [0] 20 = Accept d8_tree /\ CapFormulaCex.res (tree_run_cap d8_g d8_tbl (Some (cstring_cap d8_g (length [0]))) [0] 20) = Driver.Throw.
+Proof. exact @cstring_capacity_formula_refuted. Qed.
 Print Assumptions C06_fixed_stack_capacity_refuted.
 
 (* without error rules a reported error ends the parse within stack-height further iterations *)
 Theorem C06_terminates_after_an_error_without_error_rules :
   forall (V C : Type) (g : grammar) (sts : list items) (tbl : LRGen.table) (opts : options) (buf : list nat) (cap : option nat) (lexer : bool -> spoint -> list nat -> list lex_event * option (nat * nat)) (term_f : nat -> nat -> nat -> spoint -> V) (err_f : spoint -> V) (rule_f : nat -> C -> list V -> C * V), safe_ok g sts tbl = true -> lexer_ok_on g buf lexer -> no_error_symbol g tbl = true -> forall (fuel : nat) (c : C) (i : nat) (s : pstate V C), nth_error (snd (run_gh V C g tbl opts buf cap lexer term_f err_f rule_f fuel (init c) [] [])) i = Some s -> ps_rec s = true -> forall fuel' : nat, i + length (ps_cursors s) <= fuel' -> fst (fst (run V C g tbl opts buf cap lexer term_f err_f rule_f fuel' c)) = Reject.
-Proof. exact error_run_terminates. Qed.
+Proof. exact @error_run_terminates. Qed.
 Print Assumptions C06_terminates_after_an_error_without_error_rules.
 
 (* every iteration in consume mode ends the run, leaves the mode or consumes one term *)
 Theorem C06_consume_mode_progress :
   forall (V C : Type) (g : grammar) (tbl : LRGen.table) (opts : options) (buf : list nat) (cap : option nat) (lexer : bool -> spoint -> list nat -> list lex_event * option (nat * nat)) (term_f : nat -> nat -> nat -> spoint -> V) (err_f : spoint -> V) (rule_f : nat -> C -> list V -> C * V) (s : pstate V C), ps_cons s = true -> ps_rec s = false -> match fst (step V C g tbl opts buf cap lexer term_f err_f rule_f s) with | inl s' => ps_cons s' = false \/ (exists (s1 : pstate V C) (t : nat) (ev : list event), gct_spec V C g opts buf lexer s (s1, Some t, ev) /\ ps_term s1 = Some t /\ t <> eof_idx g /\ s' = consume_term V C buf s1 /\ ps_cons s' = true /\ ps_rec s' = false /\ ps_cursors s' = ps_cursors s /\ ps_values s' = ps_values s /\ ps_it s' = ps_end s1 /\ ps_end s' = ps_end s1) \/ (exists (cur t : nat) (e : entry), hd_error (ps_cursors s) = Some cur /\ cell tbl cur (nterm_count g + t) = inl e /\ e_kind e = KShiftErr /\ ps_cons s' = true /\ ps_rec s' = false) | inr _ => True end.
-Proof. exact consume_progress. Qed.
+Proof. exact @consume_progress. Qed.
 Print Assumptions C06_consume_mode_progress.
 
 (* every iteration in recovery mode ends the run, pops one state, shifts the error symbol or reduces *)
 Theorem C06_recovery_mode_progress :
   forall (V C : Type) (g : grammar) (tbl : LRGen.table) (opts : options) (buf : list nat) (cap : option nat) (lexer : bool -> spoint -> list nat -> list lex_event * option (nat * nat)) (term_f : nat -> nat -> nat -> spoint -> V) (err_f : spoint -> V) (rule_f : nat -> C -> list V -> C * V) (s : pstate V C), ps_rec s = true -> ps_cons s = false -> match fst (step V C g tbl opts buf cap lexer term_f err_f rule_f s) with | inl s' => ps_rec s' = true /\ ps_cons s' = false /\ ps_cursors s' = tl (ps_cursors s) /\ ps_values s' = tl (ps_values s) /\ ps_cursors s' <> [] \/ ps_rec s' = false /\ ps_cons s' = true /\ (exists nst : nat, ps_cursors s' = nst :: ps_cursors s /\ ps_values s' = err_f (ps_sp s) :: ps_values s) \/ ps_rec s' = true /\ ps_cons s' = false /\ (exists (r : nat) (ri : rule_info) (nst : nat) (v : V), nth_error (rule_infos g) r = Some ri /\ ri_n ri <= length (ps_cursors s) /\ ri_n ri <= length (ps_values s) /\ ps_cursors s' = nst :: skipn (ri_n ri) (ps_cursors s) /\ ps_values s' = v :: skipn (ri_n ri) (ps_values s)) \/ (exists (cur : nat) (e : entry), hd_error (ps_cursors s) = Some cur /\ cell tbl cur (err_col g) = inl e /\ e_kind e = KShift) | inr _ => True end.
-Proof. exact recovery_progress. Qed.
+Proof. exact @recovery_progress. Qed.
 Print Assumptions C06_recovery_mode_progress.
 
 (* automaton construction: the recursive merge terminates *)
 Theorem C06_merge_terminates :
   forall (sm : dfa) (to from : nat) (keep mark : bool), BuilderSize.closed sm -> to < length sm -> from < length sm -> merge (merge_fuel sm) sm to from keep mark <> None.
-Proof. exact merge_terminates. Qed.
+Proof. exact @merge_terminates. Qed.
 Print Assumptions C06_merge_terminates.
+
+(* THE LIBRARY'S OWN TABLES (word-level mirror of namespace stdex, tied to the real templates by kernel-checked observations): an index that passes check_idx addresses a word inside the array of a cbitset (item sets, FIRST sets, character sets, merged_from) *)
+Theorem C06_bitset_accesses_stay_inside_the_word_array :
+  forall (b : cbitset) (idx : N), cb_wf b -> (idx < cb_n b)%N -> cb_wi idx < length (cb_data b).
+Proof. exact @cb_word_index_in_bounds. Qed.
+Print Assumptions C06_bitset_accesses_stay_inside_the_word_array.
+
+(* test throws exactly for idx >= N *)
+Theorem C06_bitset_index_check_is_exact :
+  forall (b : cbitset) (j : N), cb_test b j = Throw <-> (cb_n b <= j)%N.
+Proof. exact @cb_test_throws_iff_out_of_range. Qed.
+Print Assumptions C06_bitset_index_check_is_exact.
+
+(* set / reset / flip / set(idx, value) throw exactly for idx >= N (and then change nothing) *)
+Theorem C06_bitset_updates_throw_exactly_out_of_range :
+  forall (b : cbitset) (i : N), (cb_set b i = Throw <-> (cb_n b <= i)%N) /\ (cb_reset b i = Throw <-> (cb_n b <= i)%N) /\ (cb_flip b i = Throw <-> (cb_n b <= i)%N) /\ (forall v : bool, cb_set_val b i v = Throw <-> (cb_n b <= i)%N).
+Proof. exact @cb_upd_throws_iff_out_of_range. Qed.
+Print Assumptions C06_bitset_updates_throw_exactly_out_of_range.
+
+(* no cbitset operation of the mirror performs an unchecked out-of-range access *)
+Theorem C06_bitset_operations_never_undefined :
+  forall (b : cbitset) (o : cb_op), cb_apply b o <> Undef.
+Proof. exact @cb_apply_never_undef. Qed.
+Print Assumptions C06_bitset_operations_never_undefined.
+
+(* after any sequence of operations the word array has its declared length and every word fits in 64 bits *)
+Theorem C06_bitset_invariant_on_every_operation_sequence :
+  forall (n : N) (ops : list cb_op), cb_wf (cb_run n ops).
+Proof. exact @cb_run_wf. Qed.
+Print Assumptions C06_bitset_invariant_on_every_operation_sequence.
+
+(* an accepted cvector push writes inside the array *)
+Theorem C06_cvector_push_writes_inside_the_array :
+  forall (A : Type) (c c' : cvector A) (x : A), cv_wf c -> cv_push c x = Ok c' -> N.to_nat (cv_size c) < length (cv_data c) /\ cv_wf c' /\ cv_abs c' = cv_abs c ++ [x].
+Proof. exact @cv_push_in_bounds. Qed.
+Print Assumptions C06_cvector_push_writes_inside_the_array.
+
+(* after any sequence of stack operations (never popping an empty vector: the driver's discipline, proved for the driver by C06_no_out_of_range_access) size <= capacity and the array keeps its length *)
+Theorem C06_cvector_invariant_on_every_operation_sequence :
+  forall (A : Type) (cap : N) (d : A) (ops : list (cv_op A)), cv_wf (cv_run cap d ops).
+Proof. exact @cv_run_wf. Qed.
+Print Assumptions C06_cvector_invariant_on_every_operation_sequence.
+
+(* erase(end() - n, end()) - reduce()'s call - is defined for every n, also n > size *)
+Theorem C06_cvector_erase_of_the_top_n_is_always_defined :
+  forall (A : Type) (c : cvector A) (n : N), exists c' : cvector A, cv_erase c (Z.of_N (cv_size c) - Z.of_N n) (Z.of_N (cv_size c)) = Ok c'.
+Proof. exact @cv_erase_last_ok. Qed.
+Print Assumptions C06_cvector_erase_of_the_top_n_is_always_defined.
+
+(* pop_back is unchecked: on an empty vector the size wraps to 2^64-1 (which is why the driver's no-pop-on-empty theorem matters) *)
+Theorem C06_cvector_pop_on_empty_wraps :
+  cv_size (cv_pop (cv_new 4 0%N)) = size_max.
+Proof. exact @cv_pop_empty_wraps. Qed.
+Print Assumptions C06_cvector_pop_on_empty_wraps.
+
+(* ring buffer: start, end inside the array, end = (start + size) mod N, after any sequence of push / pop *)
+Theorem C06_cqueue_invariant_on_every_operation_sequence :
+  forall (A : Type) (cap : N) (d : A) (ops : list (cq_op A)), cq_wf (cq_run cap d ops).
+Proof. exact @cq_run_wf. Qed.
+Print Assumptions C06_cqueue_invariant_on_every_operation_sequence.
+
+(* top never reads outside the array *)
+Theorem C06_cqueue_never_reads_outside :
+  forall (A : Type) (q : cqueue A), cq_wf q -> cq_top q <> Undef.
+Proof. exact @cq_never_undef. Qed.
+Print Assumptions C06_cqueue_never_reads_outside.
+
+(* stdex::sort computes size() - 1 in unsigned arithmetic: on an empty container it would read c[1], c[0]; the library only sorts rule_infos, which holds at least the root rule *)
+Theorem C06_sort_of_an_empty_container_is_undefined :
+  forall (A : Type) (p : A -> A -> bool), stdex_sort p [] = Undef.
+Proof. exact @stdex_sort_empty_undefined. Qed.
+Print Assumptions C06_sort_of_an_empty_container_is_undefined.
